@@ -368,7 +368,8 @@ pub fn gen_c19(rng: &mut Rng, thorough: bool) -> History {
         em.push(0, op);
     }
     em.close_all();
-    let variant = if thorough && faults && npx <= 64 && rng.chance(1, 20) { V19_ENUMERATE_OFFSETS } else { 0 };
+    // now and then every single fault offset of a small file instead of one seeded offset
+    let variant = if faults && ((thorough && npx <= 64 && rng.chance(1, 20)) || (npx <= 16 && rng.chance(1, 60))) { V19_ENUMERATE_OFFSETS } else { 0 };
     em.finish(0, variant, 2_000_000_000, format!("c19 faults={}", faults))
 }
 
